@@ -827,6 +827,62 @@ pub mod verif_hooks {
             .collect()
     }
 
+    /// Runs the real `apply_stch` on a bare buffer.  item = (glyph, cluster, mask, action: 0 none / 1 STRETCHING_FIXED /
+    /// 2 STRETCHING_REPEATING, kind: 0 not word category / 1 word category / 2 default ignorable, x_advance).
+    /// Tile widths come from the face (`glyph_h_advance`).  Returns (glyph, cluster, mask, x_advance, x_offset) per glyph.
+    pub fn apply_stch_on(
+        face: &hb_font_t,
+        items: &[(u32, u32, u32, u8, u8, i32)],
+        rtl: bool,
+        level: u32,
+    ) -> Vec<(u32, u32, u32, i32, i32)> {
+        let mut buffer = hb_buffer_t::new();
+        let _ = buffer.ensure(items.len());
+        buffer.len = items.len();
+        buffer.have_positions = true;
+        buffer.cluster_level = level;
+        buffer.direction = if rtl {
+            Direction::RightToLeft
+        } else {
+            Direction::LeftToRight
+        };
+        for (i, (g, c, m, a, k, adv)) in items.iter().enumerate() {
+            // unicode props of a representative character of the kind, then the real glyph id
+            buffer.info[i].glyph_id = match *k {
+                1 => 0x0627,
+                2 => 0x200C,
+                _ => 0x0020,
+            };
+            let mut sf = buffer.scratch_flags;
+            buffer.info[i].init_unicode_props(&mut sf);
+            buffer.info[i].glyph_id = *g;
+            buffer.info[i].cluster = *c;
+            buffer.info[i].mask = *m;
+            buffer.info[i].set_arabic_shaping_action(match *a {
+                1 => arabic_action_t::STRETCHING_FIXED,
+                2 => arabic_action_t::STRETCHING_REPEATING,
+                _ => arabic_action_t::NONE,
+            });
+            buffer.pos[i] = crate::GlyphPosition::default();
+            buffer.pos[i].x_advance = *adv;
+            if *a == 1 || *a == 2 {
+                buffer.scratch_flags |= HB_BUFFER_SCRATCH_FLAG_ARABIC_HAS_STCH;
+            }
+        }
+        apply_stch(face, &mut buffer);
+        (0..buffer.len)
+            .map(|i| {
+                (
+                    buffer.info[i].glyph_id,
+                    buffer.info[i].cluster,
+                    buffer.info[i].mask,
+                    buffer.pos[i].x_advance,
+                    buffer.pos[i].x_offset,
+                )
+            })
+            .collect()
+    }
+
     /// Only the Mongolian free-variation-selector copy, on explicit (code point, action) items.
     pub fn mongolian_copy(items: &[(u32, u8)]) -> Vec<u8> {
         let mut buffer = hb_buffer_t::new();
